@@ -29,6 +29,8 @@ Record cfg := {
   permits : N;                (* Semaphore::new(n) in WorkspaceLock::new *)
   shared_lock : bool;         (* SessionEngine::new creates ONE lock and hands it to sessions and TaskEngine *)
   stray_sites : N;            (* tool / checkpoint / task run call sites outside the analysed spans *)
+  abandon_kills : bool;       (* the shell tool spawns its command with kill_on_drop(true): a call abandoned
+                                 by the runner's timeout does not leave its command running (S28) *)
   class_default_lock : bool;  (* what requires_workspace_lock answers for a name it does not list *)
   class_listed : list str;    (* the names it lists (they get the opposite answer): a deny list
                                  `!matches!(name, ..)` has default true, an allow list default false *)
@@ -151,7 +153,8 @@ Definition wf_spans (c : cfg) : bool :=
   && span_accepts false true (span_ckpt c) && span_accepts false true (span_task c).
 
 Definition wf_cfg (c : cfg) : bool :=
-  N.eqb (permits c) 1 && shared_lock c && N.eqb (stray_sites c) 0 && wf_classes c && wf_spans c.
+  N.eqb (permits c) 1 && shared_lock c && N.eqb (stray_sites c) 0 && abandon_kills c
+  && wf_classes c && wf_spans c.
 
 (* ------------------------------------------------------------------ micro-instructions *)
 Inductive instr :=
@@ -282,7 +285,7 @@ Definition lift (k : N) (s : dsh) : dstate :=
 (* the configuration as read from the source when this model was written (examples only; the
    check uses the regenerated Gen.LockSpans.gen_cfg) *)
 Definition ref_cfg : cfg := {|
-  permits := 1; shared_lock := true; stray_sites := 0;
+  permits := 1; shared_lock := true; stray_sites := 0; abandon_kills := true;
   class_default_lock := true;
   class_listed := [s_read; s_ls; s_grep; s_artifact_fetch];
   registered := [s_read; s_artifact_fetch; s_write; s_apply_patch; s_ls; s_grep; s_bash; s_shell];
